@@ -406,6 +406,8 @@ struct Layout {
     scalars: u64,
     /// generator path: `$ <scalar>` / `> <scalar>`, 2 modes
     gen_scalars: u64,
+    /// content tails `<blank>(<group>)` with blanks other than U+0020: 2 observations x 2 modes
+    blank_tails: u64,
     n_scalars: u64,
     pair_stride: u64,
 }
@@ -423,6 +425,7 @@ fn layout(tier: Tier, seed: u64) -> Layout {
         // scalar alone and between two backslashes, 2 modes
         scalars: (n_scalars * 4).div_ceil(BATCH),
         gen_scalars: (n_scalars * 2).div_ceil(BATCH),
+        blank_tails: blank_tail_count().div_ceil(BATCH) * 4,
         n_scalars,
         pair_stride,
     }
@@ -509,7 +512,43 @@ fn sweep_case(tier: Tier, seed: u64, k: u64) -> Option<C11Case> {
         }
         return Some(C11Case { mode: mode.into(), items, family: "gen-sweep-scalar".into(), via: "generator".into() });
     }
+    let k = k - l.gen_scalars;
+    if k < l.blank_tails {
+        // every (head, blank, group, newline) combination, under both modes and both observations
+        let mode = if k % 2 == 0 { "ascii" } else { "unicode" };
+        let via = if (k / 2) % 2 == 0 { "" } else { "generator" };
+        let base = (k / 4) * BATCH;
+        for j in base..(base + BATCH).min(blank_tail_count()) {
+            items.push(blank_tail_item(j));
+        }
+        return Some(C11Case { mode: mode.into(), items, family: "sweep-blank-tail".into(), via: via.into() });
+    }
     None
+}
+
+/// white space other than U+0020 (what `\\s` / `char::is_whitespace` accept), LF excluded
+const BLANKS: &[char] = &[
+    '\u{a0}', '\u{1680}', '\u{2000}', '\u{2001}', '\u{2002}', '\u{2003}', '\u{2004}', '\u{2005}', '\u{2006}', '\u{2007}', '\u{2008}', '\u{2009}',
+    '\u{200a}', '\u{2028}', '\u{2029}', '\u{202f}', '\u{205f}', '\u{3000}', '\t', '\u{b}', '\u{c}', '\r', '\u{85}',
+];
+const TAIL_GROUPS: &[&str] = &["no-eol", "no-eol", "escaped", "esc", "equal", "eq", "glob", "re", "?", "", "no-eol+", "foo"];
+const TAIL_HEADS: &[&str] = &["\u{1b}", "a", "", "é\t", "$ \u{7}", "\\\u{0}", "> x", "\u{200b}"];
+
+fn blank_tail_count() -> u64 {
+    (BLANKS.len() * TAIL_GROUPS.len() * TAIL_HEADS.len() * 2) as u64
+}
+
+/// item j of the complete sweep of `<head><blank>(<group>)`, terminated / unterminated
+fn blank_tail_item(j: u64) -> Item {
+    let mut j = j as usize;
+    let nl = j % 2 == 0;
+    j /= 2;
+    let head = TAIL_HEADS[j % TAIL_HEADS.len()];
+    j /= TAIL_HEADS.len();
+    let group = TAIL_GROUPS[j % TAIL_GROUPS.len()];
+    j /= TAIL_GROUPS.len();
+    let blank = BLANKS[j % BLANKS.len()];
+    Item { content: format!("{head}{blank}({group})").into_bytes(), nl }
 }
 
 const PIECES: &[&[u8]] = &[
@@ -531,6 +570,11 @@ fn random_item(rng: &mut Rng) -> Item {
             c.extend_from_slice(*rng.pick(PIECES));
         }
     }
+    // a tail that reads like a modifier group behind a blank other than U+0020
+    if rng.chance(1, 5) {
+        let blank = *rng.pick(BLANKS);
+        c.extend_from_slice(format!("{blank}({})", rng.pick(TAIL_GROUPS)).as_bytes());
+    }
     Item { content: c, nl: !rng.chance(1, 4) }
 }
 
@@ -544,10 +588,10 @@ impl Monitor for C11 {
     fn plan(&self, tier: Tier) -> Plan {
         // the sweep part does not depend on the seed in size except through the quick scalar slice (+-61 entries)
         let l = layout(tier, 1);
-        let sweeps = l.singles + l.pairs + l.scalars + l.gen_scalars + 4;
+        let sweeps = l.singles + l.pairs + l.scalars + l.gen_scalars + l.blank_tails + 4;
         let mut p = Plan::new(
             sweeps + tier.pick(12_000, 600_000),
-            "case = batch of up to 64 lines under one escaping mode; sweeps: all 256 single bytes, byte pairs (all in thorough, a seeded quarter in quick), Unicode scalars as a one-character line and between two backslashes (all in thorough; quick: U+0000..U+30FF, every boundary of the Cc/Cf/Cn/Co tables, a seeded stride of 61); then (generator path: what OutputStream::to_output_string writes, parsed back as it is) `$ ` / `> ` followed by every scalar of the same slice and a third of the random batches prefixed with `$ `, `> `, `$`, `>`; random strings biased to backslash-adjacent control bytes, spelled escapes, truncated / overlong UTF-8, lone continuation bytes, syntax look-alike tails; non-trivial = a batch with at least one line that was written escaped; distinct = hash of the batch content",
+            "case = batch of up to 64 lines under one escaping mode; sweeps: all 256 single bytes, byte pairs (all in thorough, a seeded quarter in quick), Unicode scalars as a one-character line and between two backslashes (all in thorough; quick: U+0000..U+30FF, every boundary of the Cc/Cf/Cn/Co tables, a seeded stride of 61); then (generator path: what OutputStream::to_output_string writes, parsed back as it is) `$ ` / `> ` followed by every scalar of the same slice and a third of the random batches prefixed with `$ `, `> `, `$`, `>`; random strings biased to backslash-adjacent control bytes, spelled escapes, truncated / overlong UTF-8, lone continuation bytes, syntax look-alike tails (behind U+0020, and behind every other white-space blank: complete sweep of <head><blank>(<group>) under both modes and both observations, and a fifth of the random lines); non-trivial = a batch with at least one line that was written escaped; distinct = hash of the batch content",
         );
         p.floor_nontrivial = tier.pick(2_000, 20_000);
         p.floor_buckets = vec![
@@ -561,6 +605,8 @@ impl Monitor for C11 {
             ("family:random".into(), 1_500),
             ("family:gen-sweep-scalar".into(), 120),
             ("family:gen-random".into(), 600),
+            ("family:sweep-blank-tail".into(), 30),
+            ("tail:other-blank".into(), 400),
             ("generator:forced-escape".into(), 600),
         ];
         p.assumptions = vec![
@@ -654,6 +700,9 @@ impl Monitor for C11 {
         }
         if skew > 0 {
             c = c.bucket("skew:cf-after-7.0");
+        }
+        if case.items.iter().any(|i| paren_tail(&i.content).is_some_and(|t| t.starts_with("ub"))) {
+            c = c.bucket("tail:other-blank");
         }
         if case.via == "generator" {
             c = c.bucket("via:generator");
